@@ -13,7 +13,7 @@ FUNCTIONS = [
 ]
 BOUNDS = {
     "quick": "chunk arithmetic: all n>=0, n_chunks>=1, chunk_index (unbounded integers; islice/generator replaced by an exact abstract-sequence model); "
-             "generator pipeline: n<=5, n_chunks<=12; assembly: n_thetas<=4, n_chunks<=4, chunk-file sequences of length<=n_chunks+1 (with repetition); metric: vectors of length<=3",
+             "generator pipeline: n<=5, n_chunks<=12; assembly: n_thetas<=4, n_chunks<=4, chunk-file sequences of length<=n_chunks+1 (with repetition); metric: vectors of length<=3; assembly also for n_thetas 0 and 1; metric additionally on concrete fixtures of nearly identical predictions at five scales (real code, relative accuracy 1e-6 against the exact rational value)",
     "thorough": "chunk arithmetic: unbounded; generator pipeline: n<=10, n_chunks<=50; assembly: n_thetas<=5, n_chunks<=5 (sequences <= n_chunks+1), n_thetas 6 (n_chunks<=6), 7 (n_chunks<=5) and 8 (n_chunks=3), n_chunks=11>pairs, and 20 / 66 samples in one fixed chunk order each; metric: vectors <=4",
 }
 ASSUMPTIONS = [
@@ -21,7 +21,7 @@ ASSUMPTIONS = [
     "h5py is a faithful typed store (symh5 model)",
     "expit is an uninterpreted function (metric properties hold for any function in its place); float arithmetic treated as real arithmetic",
 ]
-OUTSIDE = ["n_thetas above the bound for the assembly part", "IEEE rounding of the metric", "the CLI wrapper's argument parsing"]
+OUTSIDE = ["n_thetas above the bound for the assembly part", "IEEE rounding of the metric beyond the concrete fixtures (the solver paths treat floats as reals)", "the CLI wrapper's argument parsing"]
 RULE = "chunk counts, chunk indices and the order/repetition of chunk files at combination time are solver-chosen (forked); distance values are symbolic reals."
 BUDGET_S = {"quick": 600, "thorough": 3000}
 
